@@ -28,9 +28,9 @@ ASSUMPTIONS = [
 ]
 PLAN = {"quick": dict(programs=4000, values=3, depth=3), "thorough": dict(programs=30000, values=6, depth=5)}
 FLOORS = {"quick": {"unmarshal_nodes_compared": 70000, "marshal_nodes_compared": 70000, "exception_parity_checked": 100000, "shape_sets_compared": 30000,
-                    "same_name_two_modules": 800, "builds_watched_for_warnings": 6000, "own_class_instance_sources": 20000, "reordered_sources": 15000, "revised_module_roots": 250},
+                    "same_name_two_modules": 800, "builds_watched_for_warnings": 6000, "own_class_instance_sources": 20000, "reordered_sources": 15000, "revised_module_roots": 250, "generic_pair_roots": 250},
           "thorough": {"unmarshal_nodes_compared": 1200000, "marshal_nodes_compared": 1200000, "exception_parity_checked": 600000,
-                       "shape_sets_compared": 150000, "same_name_two_modules": 7000, "builds_watched_for_warnings": 50000, "own_class_instance_sources": 100000, "reordered_sources": 100000, "revised_module_roots": 2000}}
+                       "shape_sets_compared": 150000, "same_name_two_modules": 7000, "builds_watched_for_warnings": 50000, "own_class_instance_sources": 100000, "reordered_sources": 100000, "revised_module_roots": 2000, "generic_pair_roots": 2000}}
 COMPOSITE = ("coll", "fixed", "mapping", "struct")
 
 
@@ -431,6 +431,83 @@ def revised_module_case(sh, rng):
         sys.modules.pop(name, None)
 
 
+def generic_pair_case(sh, rng):
+    """A user generic with TWO type-variables whose members use them in both orders: `Pair[K, V]` with `forward: dict[K, V]`,
+    `backward: dict[V, K]`, `flipped: tuple[V, K]`, ... Every member of `Pair[A, B]` converts by the argument ITS variable was given."""
+    import sys
+    import types
+
+    ta, tb = rng.sample(sorted(REV_LEAVES), 2)
+    flav = rng.choice(["dataclass", "plain"])
+    name = f"vpair_{rng.randrange(16**8):08x}"
+    mod = types.ModuleType(name)
+    mod.__file__ = f"/verif/out/generated/{name}.py"
+    sys.modules[name] = mod
+    members = [("first", "K"), ("second", "V"), ("forward", "dict[K, V]"), ("backward", "dict[V, K]"), ("flipped", "tuple[V, K]"), ("nested", "list[dict[V, K]]"),
+               ("firsts", "list[K]")]
+    rng.shuffle(members)
+    members = members[: rng.randrange(3, len(members) + 1)]
+    head = "import dataclasses, datetime, decimal, typing, uuid\nK = typing.TypeVar('K')\nV = typing.TypeVar('V')\n"
+    if flav == "dataclass":
+        src = head + "@dataclasses.dataclass\nclass Pair(typing.Generic[K, V]):\n" + "".join(f"    {n}: {t}\n" for n, t in members)
+    else:
+        src = (head + "class Pair(typing.Generic[K, V]):\n    def __init__(self, " + ", ".join(f"{n}: {t}" for n, t in members) + "):\n"
+               + "".join(f"        self.{n} = {n}\n" for n, _ in members)
+               + "    def __eq__(self, o):\n        return type(o) is type(self) and vars(o) == vars(self)\n")
+    try:
+        exec(compile(src, mod.__file__, "exec", dont_inherit=True), mod.__dict__)
+        T = mod.Pair[eval(ta, mod.__dict__), eval(tb, mod.__dict__)]
+
+        def leaf(which):
+            w, v = rng.choice(REV_LEAVES[ta if which == "K" else tb])
+            return w, v, REV_WIRE[ta if which == "K" else tb](v)
+
+        def hashable_leaf(which):
+            for _ in range(8):
+                w, v, m = leaf(which)
+                try:
+                    hash(w), hash(m)
+                    return w, v, m
+                except TypeError:
+                    continue
+            return leaf(which)
+
+        def build(tsrc):
+            if tsrc in ("K", "V"):
+                return leaf(tsrc)
+            if tsrc.startswith("list[dict["):
+                a = build("dict[V, K]")
+                return [a[0]], [a[1]], [a[2]]
+            if tsrc.startswith("list["):
+                a, b = leaf("K"), leaf("K")
+                return [a[0], b[0]], [a[1], b[1]], [a[2], b[2]]
+            if tsrc.startswith("dict["):
+                kx, vx = (("K", "V") if tsrc == "dict[K, V]" else ("V", "K"))
+                k_, v_ = hashable_leaf(kx), leaf(vx)
+                return {k_[0]: v_[0]}, {k_[1]: v_[1]}, {k_[2]: v_[2]}
+            a, b = leaf("V"), leaf("K")  # tuple[V, K]
+            return [a[0], b[0]], (a[1], b[1]), [a[2], b[2]]
+
+        parts = {n: build(t) for n, t in members}
+        wire = {n: parts[n][0] for n, _ in members}
+        want = mod.Pair(**{n: parts[n][1] for n, _ in members})
+        wantm = {n: parts[n][2] for n, _ in members}
+        sh.count("generic_pair_roots")
+        sh.eval(("generic-pair", flav, ta, tb, tuple(members), repr(wire)))
+        rec = dict(flavour=flav, arguments=f"Pair[{ta}, {tb}]", module_src=src)
+        got = outcome(lambda w: typelib.unmarshal(T, w), wire)
+        fields_of = lambda o: {n: getattr(o, n, "<unset>") for n, _ in members}  # noqa: E731  (typing adds __orig_class__ to instances built through the alias)
+        if got[0] != "ok" or type(got[1]) is not mod.Pair or canon(fields_of(got[1]), strict=True) != canon(fields_of(want), strict=True):
+            sh.violation("generic-member-by-other-variable", side="unmarshal", wire=repr(wire), expected=repr(fields_of(want)),
+                         got=repr(fields_of(got[1]) if got[0] == "ok" else got)[:600], **rec)
+            return
+        gotm = outcome(lambda v: typelib.marshal(v, t=T), want)
+        if gotm[0] != "ok" or canon(gotm[1], strict=True) != canon(wantm, strict=True):
+            sh.violation("generic-member-by-other-variable", side="marshal", value=repr(fields_of(want)), expected=repr(wantm), got=repr(gotm)[:600], **rec)
+    finally:
+        sys.modules.pop(name, None)
+
+
 def canaries(sh):
     class Fake:
         def __init__(self):
@@ -454,6 +531,9 @@ def run_case(sh, i, plan):
     clear_typelib_caches(also_typing=True)
     if i % 12 == 5:
         revised_module_case(sh, rng)
+        return
+    if i % 12 == 7:
+        generic_pair_case(sh, rng)
         return
     opts = U.Opts(depth=rng.choice([2, 2, 3, plan["depth"]]), share_prob=0.4, none_members=True)
     extra = None
